@@ -1128,7 +1128,8 @@ def access_path(e):
             e = e[2][0]
             continue
         if k == 'call' and not e[2]:
-            return None
+            parts.append((e[4].get('name') or e[1]) + '()')
+            return '.'.join(reversed(parts))
         return None
     return None
 
@@ -1372,3 +1373,128 @@ def deps(f, e, depth=0, seen=None):
                 for a in ce[2]:
                     out |= deps(f, a, depth + 1, seen)
     return out
+
+
+# ------------------------------------------------------------------------------------------
+# acyclic feasible path enumeration with per-path facts (rule kind K7 on loop bodies)
+# ------------------------------------------------------------------------------------------
+def enumerate_paths(f, start, stops, limit=20000):
+    """all feasible acyclic block paths from `start` that end when a block of `stops` (or a
+    return / dead end) is reached.  Feasibility = constant-temporary and discriminant tracking of
+    Fn.explore.  Returns list of block lists (last element is the stop block)."""
+    stops = set(stops)
+    out = []
+    dof = f._discr_of()
+
+    def rec_(bb, env, path):
+        if len(out) >= limit:
+            raise AnchorMissing('path explosion in %s' % f.path)
+        path = path + [bb]
+        if bb in stops and len(path) > 1:
+            out.append(path)
+            return
+        env2 = f._step_env(bb, dict(env))
+        t = f.blocks[bb]['t']
+        nxt = None
+        dl = None
+        if t['k'] == 'switch':
+            op = t['d']
+            p = op.get('cp') or op.get('mv')
+            if p and not p.get('p') and p['l'] in env2:
+                v = env2[p['l']]
+                nxt = [t['o']]
+                for val, b in t['ts']:
+                    if val == v:
+                        nxt = [b]
+                        break
+            if p and not p.get('p') and p['l'] in dof:
+                dl = dof[p['l']]
+        if nxt is None:
+            nxt = f.succs(bb)
+        if not nxt:
+            out.append(path)
+            return
+        for n in nxt:
+            if n in path or f.blocks[n].get('cleanup'):
+                if n in stops:
+                    out.append(path + [n])
+                continue
+            e3 = env2
+            if dl is not None and ('d', dl) not in env2:
+                vals = [v for v, b2 in t['ts'] if b2 == n]
+                if len(vals) == 1 and n != t['o']:
+                    e3 = dict(env2)
+                    e3[('d', dl)] = vals[0]
+            rec_(n, e3, path)
+    rec_(start, {}, [])
+    return out
+
+
+def path_facts(f, path):
+    """facts along one block path: atoms (branch conditions with the value taken; first
+    observation wins, a later contradictory observation without an intervening store makes the
+    path infeasible -> returns None), stores [(access_path, value_expr, bb)], calls [(bb, expr)]"""
+    atoms = {}
+    stores = []
+    calls = []
+    killed = set()
+    for i, bb in enumerate(path):
+        b = f.blocks[bb]
+        for si, s in enumerate(b['s']):
+            if s['k'] == 'assign' and s['lhs'].get('p'):
+                p = access_path(f.expr_place(s['lhs']))
+                v = f.expr_rvalue(s['rv'])
+                stores.append((p, v, bb))
+                # invalidate atoms that read this path
+                for k in list(atoms):
+                    if p and p in k:
+                        killed.add(k)
+            elif s['k'] == 'assign' and not s['lhs'].get('p'):
+                nm = f._localnames.get(s['lhs']['l'])
+                if nm and (len(f.defs(s['lhs']['l'])) > 1 or s['lhs']['l'] in f.mutable_locals()):
+                    v = f.expr_rvalue(s['rv'])
+                    stores.append((nm, v, bb))
+                    for k in list(atoms):
+                        if nm in k:
+                            killed.add(k)
+        t = b['t']
+        if t['k'] == 'call' and not _is_wrapper_call(t):
+            calls.append((bb, f.expr_call(bb)))
+        if t['k'] == 'switch' and i + 1 < len(path):
+            nxt = path[i + 1]
+            e, ts, o = f.cond(bb)
+            neg = False
+            while True:
+                if e[0] == 'unop' and e[1] == 'Not':
+                    neg = not neg
+                    e = e[2]
+                    continue
+                if e[0] == 'binop' and e[1] in ('Eq', 'Ne') and e[3][0] == 'const' and e[3][3] == 'bool':
+                    if (e[1] == 'Eq') != bool(e[3][1]):
+                        neg = not neg
+                    e = e[2]
+                    continue
+                break
+            key = show(e)
+            if t.get('dty') == 'bool':
+                val = (nxt == t['o'])
+                if nxt == t['o'] and any(b2 == nxt for v2, b2 in t['ts']):
+                    continue
+                if neg:
+                    val = not val
+            else:
+                vals = [v for v, b2 in t['ts'] if b2 == nxt]
+                if len(vals) != 1:
+                    continue
+                val = vals[0]
+                if e[0] == 'discr':
+                    val = f.facts.variant_names(e[2]).get(val, val)
+            if key in atoms and key not in killed:
+                if atoms[key] != val:
+                    return None
+            elif key in killed:
+                # re-observed after a store: later value is about the new state; keep the first
+                pass
+            else:
+                atoms[key] = val
+    return {'atoms': atoms, 'stores': stores, 'calls': calls, 'blocks': path}
